@@ -192,15 +192,15 @@ emit_func_convert = template(
 
 emit_translate = template(is_func=True,
                           func_args=('target', 'msgid',
-                                     'default'),
-                          func_defaults=(None,),
+                                     'default', 'language'),
+                          func_defaults=(None, 'target_language'),
                           source=r"""
     target = translate(
         msgid,
         default=default,
         domain=__i18n_domain,
         context=__i18n_context,
-        target_language=target_language
+        target_language=language
     )""")
 
 
@@ -951,8 +951,13 @@ class ExpressionTransform:
             msgid = ast.Constant(node.msgid)
         else:
             msgid = target
+        # The language in force is a local variable of the render
+        # function; it must not be looked up in the template context.
         return self._translate(node.node, target) + \
-            emit_translate(target, msgid, default=target)
+            emit_translate(
+                target, msgid, default=target,
+                language=Builtin("target_language")
+            )
 
     def visit_Static(self, node, target):
         return [ast.Assign(targets=[target], value=node)]
